@@ -8,7 +8,7 @@ import numpy as np
 import pandas as pd
 
 import coqio as C
-from gen_bins import blocks_from_widths, table_from_blocks
+from gen_bins import blocks_from_widths, names_for, table_from_blocks
 
 SCALE = 8  # float columns hold multiples of 1/8; the model sees value*8
 
@@ -73,7 +73,7 @@ def nbins_of(widths):
 
 def np_dtype(name):
     return {"int8": np.int8, "int16": np.int16, "int32": np.int32, "int64": np.int64, "uint8": np.uint8,
-            "uint16": np.uint16, "uint32": np.uint32, "float64": np.float64, "float32": np.float32}[name]
+            "uint16": np.uint16, "uint32": np.uint32, "float64": np.float64, "float32": np.float32, "bool": np.bool_}[name]
 
 
 def col_values(rows, k, kind, in_dtype=None):
